@@ -158,6 +158,9 @@ func (p *Prog) Parse() map[*Fn]bool {
 func SortedFns(set map[*Fn]bool) []*Fn {
 	var out []*Fn
 	for f := range set {
+		if f.P != nil && f.P.CalledHelper(f.Root()) {
+			continue // a new helper is analysed through its callers (see known.go)
+		}
 		out = append(out, f)
 	}
 	sort.Slice(out, func(i, j int) bool { return out[i].Name < out[j].Name })
